@@ -778,6 +778,8 @@ def check_C13(ctx):
         "spec/Wire.tla is a faithful transcription of BEP3/5/32 (pinned by ASSUME to the BEP5 example messages)",
         "the harness' own bencode reader/writer (benc.rs) produces the key-permuted / unknown-key / ill-formed variants faithfully",
         "TLC evaluates Wire!Encode on every recorded message; agreement on the cases explored, not a proof over the input space",
+        "every variant datagram is also read by the specification's own decoder (WireParse!Interpret): it must denote the expected "
+        "message (or be rejected), otherwise the run is a tool error",
     ]
     q = ctx.quick
     # spec -> impl: every message of the enumerated shape space (MC_Wire) through the real encoder / decoder
@@ -802,6 +804,10 @@ def check_C13(ctx):
             res = list(ex.map(lambda f: _tv_file("trace/WireTrace.tla", "trace/WireTrace.cfg", f), parts))
         return vlib.TvMulti(res, sum(p.nlines for p in res), max(p.res.wall for p in res))
     tv1, tv2 = val(t1), val(t2)
+    mism = [x for tv in (tv1, tv2) for p in tv.parts for x in p.res.printed("ORACLEMISMATCH")]
+    if mism:
+        raise ToolError("the wire specification (WireParse!Interpret) disagrees with the harness about %d variants, e.g. %s -- a defect of "
+                        "the machinery, not of the code" % (len(mism), mism[0]))
     ndec = sum(1 for t in (t1, t2) for line in open(t) if '"ev":"Dec"' in line)
     ctx.add_tv("wire-enumerated", tv1, n1, n1)
     ctx.add_tv("wire-random", tv2, n2, n2)
